@@ -47,7 +47,7 @@ func verifC06TotalRun(o ProcessFetchPartitionOpts, data []byte, maxRecords int) 
 func VerifC06_totalityBytes() {
 	n := 34 // a magic-1 message with empty key and value; a magic-0 message with 8 bytes of key/value
 	if verifThorough() {
-		n = 48
+		n = 40
 	}
 	data := verifNondetBytes("data", n)
 	switch verifChoose(4) {
@@ -85,16 +85,12 @@ func verifC06TotalityBatch(r int, overflowVarint bool) {
 		verifAssume(verifAnd(cont, rec[4] > 0x0f) == overflowVarint)
 	}
 	if !verifThorough() {
-		// quick: record count negative, 0, 1, 2 or larger than the record area
+		// quick: record count negative, 0, 1 or larger than the record area
 		nr := int32(uint32(hdr[57])<<24 | uint32(hdr[58])<<16 | uint32(hdr[59])<<8 | uint32(hdr[60]))
-		verifAssume(verifOr(nr <= 2, nr > int32(r)))
+		verifAssume(verifOr(nr <= 1, nr > int32(r)))
 	}
 	o := verifC06TotalCfg()
-	if verifThorough() {
-		o.IsolationLevel = IsolationLevel{verifIteInt8(verifNondetBool("readCommitted"), 1, 0)}
-	} else {
-		verifAssume(!o.KeepControlRecords)
-	}
+	verifAssume(!o.KeepControlRecords)
 	verifC06TotalRun(o, data, r/7)
 }
 
